@@ -559,7 +559,13 @@ def rule_nruns(eng, rep, rule="C10-5.nruns-counts-runs"):
         rep.unknown(rule, eng.where(sm), "expected one while loop (the main loop) in solve_main, found %d" % len(main_heads))
         return
     head = main_heads[0]
-    restart_nodes = set(cfg.cfg_node(ci.node) for ci in eng.calls_in(sm) if any(t.fid == "controller.Controller.soft_restart" for t in ci.targets))
+    def reaches_restart(t, depth=2):
+        if t.fid == "controller.Controller.soft_restart":
+            return True
+        if depth == 0 or t.cls in ("Controller", "Model"):
+            return False          # (only free helper functions of the solver module are looked through, not the controller's own methods)
+        return any(reaches_restart(t2, depth - 1) for c2 in eng.calls_in(t) for t2 in c2.targets)
+    restart_nodes = set(cfg.cfg_node(ci.node) for ci in eng.calls_in(sm) if any(reaches_restart(t) for t in ci.targets))
 
     evar = "exit_info"
 
@@ -611,10 +617,13 @@ def rule_nruns(eng, rep, rule="C10-5.nruns-counts-runs"):
         states = fl.states(n)
         if d.get("jump") == "break" and _innermost_loop(cfg, n) == head:
             nb += 1
-            bad = [s for s in states if s[0] != 1]
+            bad = [s for s in states if s[0] > 1]
             if bad:
                 rep.bad(rule, site, "solver.solve_main|break-with-%d-increments|%s" % (bad[0][0], _prev_call(cfg, n)),
                         "a run ends here with %d increments of %s on the path (must be exactly 1)" % (bad[0][0], var), path=cfg.describe_path(fl.path_to(n, bad[0]))[-14:])
+            elif any(s[0] == 0 for s in states):
+                # the increment may follow the loop (one statement after `while True:` instead of one before each break): judged at the return
+                rep.note(rule, site, "run ends here with no increment of %s yet: the count is judged at the return after the loop" % var)
             else:
                 rep.ok(rule, site, "run ends with exactly one increment of %s" % var)
         elif d.get("jump") == "continue" and _innermost_loop(cfg, n) == head:
